@@ -405,3 +405,95 @@ RULES = [r_extract, r_horizon_report, r_calendar, r_view_symmetry, r_marker, r_r
 
 # every assertion a task or a resource makes about a busy interval reaches the solver only if the store keeps it (R-BASE-STORE)
 RULES.append(lambda ctx: __import__("rules.tasks", fromlist=["x"]).r_base_store(ctx))
+
+
+def r_solution_store(ctx):
+    """'a task lists a resource exactly when the resource lists an assignment for it' is decided on what build_solution computes
+    (R-VIEW-SYMMETRY); it reaches the caller only if SchedulingSolution.add_*_solution keeps what it is handed: each of these
+    methods stores its argument itself, unconditionally, under the argument's own name, and neither modifies the argument
+    (attribute / item assignment, in-place list methods) nor stores a rebuilt value (seed C11-agent-10: assignments filtered
+    to `end > start` before the store)."""
+    import ast as _ast
+    cls = ctx.project.classes["SchedulingSolution"]
+    table = {"add_task_solution": "tasks", "add_resource_solution": "resources", "add_buffer_solution": "buffers",
+             "add_indicator_solution": "indicators"}
+    MUT = {"append", "extend", "insert", "remove", "pop", "clear", "sort", "reverse", "update", "setdefault", "popitem", "__setitem__", "__delitem__"}
+    n = 0
+    for mname, reg in table.items():
+        fn = cls.methods.get(mname)
+        if not isinstance(fn, _ast.FunctionDef):
+            raise P.AnalysisError(f"R-SOLUTION-STORE: SchedulingSolution.{mname} not found")
+        n += 1
+        params = [a.arg for a in fn.args.args[1:]]
+        where = f"SchedulingSolution.{mname}"
+        problems = []
+
+        def root(e):
+            while isinstance(e, (_ast.Attribute, _ast.Subscript)):
+                e = e.value
+            return e.id if isinstance(e, _ast.Name) else None
+
+        alias = {p: p for p in params}
+        stores = []
+        for st in fn.body:
+            if isinstance(st, _ast.Expr) and isinstance(st.value, _ast.Constant):
+                continue
+            if isinstance(st, _ast.Assign) and len(st.targets) == 1 and isinstance(st.targets[0], _ast.Name):
+                v = st.value     # a local name for the argument or for one of its attributes
+                if isinstance(v, _ast.Name) and v.id in alias:
+                    alias[st.targets[0].id] = alias[v.id]
+                    continue
+                if isinstance(v, _ast.Attribute) and isinstance(v.value, _ast.Name) and v.value.id in alias:
+                    alias[st.targets[0].id] = alias[v.value.id] + "." + v.attr
+                    continue
+            if isinstance(st, _ast.Assign) and len(st.targets) == 1 and isinstance(st.targets[0], _ast.Subscript):
+                t = st.targets[0]
+                if isinstance(t.value, _ast.Attribute) and isinstance(t.value.value, _ast.Name) and t.value.value.id == "self" and t.value.attr == reg:
+                    stores.append(st)
+                    continue
+            names = {x.id for x in _ast.walk(st) if isinstance(x, _ast.Name)}
+            if names & (set(alias) | {"self"}):     # a statement that touches neither the argument nor the solution cannot change what is stored
+                problems.append((st.lineno, f"statement `{_ast.unparse(st)[:90]}` besides the store into self.{reg}"))
+        for node in _ast.walk(fn):
+            tg = []
+            if isinstance(node, _ast.Assign):
+                tg = node.targets
+            elif isinstance(node, (_ast.AugAssign, _ast.AnnAssign)):
+                tg = [node.target]
+            elif isinstance(node, _ast.Delete):
+                tg = node.targets
+            for t in tg:
+                if isinstance(t, (_ast.Attribute, _ast.Subscript)) and root(t) in alias and root(t) != "self":
+                    problems.append((node.lineno, f"the argument is modified before it is stored: `{_ast.unparse(node)[:90]}`"))
+            if isinstance(node, _ast.Call) and isinstance(node.func, _ast.Attribute) and node.func.attr in MUT and root(node.func.value) in alias:
+                problems.append((node.lineno, f"the argument is modified in place: `{_ast.unparse(node)[:90]}`"))
+        if len(stores) != 1:
+            problems.append((fn.lineno, f"{len(stores)} unconditional stores into self.{reg} (exactly one expected)"))
+        else:
+            st = stores[0]
+            def res(e):
+                if isinstance(e, _ast.Name):
+                    return alias.get(e.id)
+                if isinstance(e, _ast.Attribute) and isinstance(e.value, _ast.Name) and e.value.id in alias:
+                    return alias[e.value.id] + "." + e.attr
+                return None
+            key, val = res(st.targets[0].slice), res(st.value)
+            want = (params[0], params[1]) if mname == "add_indicator_solution" else (params[0] + ".name", params[0])
+            if (key, val) != want:
+                problems.append((st.lineno, f"stores `{_ast.unparse(st.value)[:60]}` under `{_ast.unparse(st.targets[0].slice)[:60]}`; "
+                                            f"expected the argument itself ({want[1]}) under {want[0]}"))
+        if problems:
+            seen = set()
+            for ln, msg in problems:
+                if msg in seen:
+                    continue
+                seen.add(msg)
+                ctx.violation("R-SOLUTION-STORE", where, "the solution keeps what it is handed",
+                              f"{msg}: what build_solution computed (and R-VIEW-SYMMETRY / R-EXTRACT decided) is not what the caller reads",
+                              f"processscheduler/solution.py:{ln}")
+        else:
+            ctx.ok("R-SOLUTION-STORE", f"{where}: self.{reg}[key] = argument, unconditionally, argument untouched")
+    ctx.floor("R-SOLUTION-STORE", "store methods of SchedulingSolution", n, 4)
+
+
+RULES.append(r_solution_store)
